@@ -42,6 +42,14 @@ def frozen_part(chk):
       return real_val(x[0])
     return int(x)
 
+  # one more way in which a FrozenDict is built from a caller's dict: restoring a FrozenDict target whose entries are placeholders
+  # (the stored sub-trees are passed through as they are)
+  def via_restore(src):
+    from flax import serialization
+    if not all(isinstance(k, str) for k in src):
+      return freeze(src)
+    return serialization.from_state_dict(freeze({k: None for k in src}), src)
+
   def replay(hist, idx):
     obj = {1: {}}
     origin = {1: 'source'}
@@ -69,7 +77,8 @@ def frozen_part(chk):
           obj[op['d']][op['key']] = obj[op['fd']]
         elif o == 'freeze':
           src = obj[op['src']]
-          obj[op['new']] = [freeze, FrozenDict, lambda s: FrozenDict(**s) if all(isinstance(k, str) for k in s) else FrozenDict(s)][(idx + step) % 3](src)
+          obj[op['new']] = [freeze, FrozenDict, lambda s: FrozenDict(**s) if all(isinstance(k, str) for k in s) else FrozenDict(s),
+                            via_restore][(idx + step) % 4](src)
         elif o == 'unfreeze':
           fd = obj[op['fd']]
           obj[op['new']] = [unfreeze, lambda f: f.unfreeze()][(idx + step) % 2](fd)
@@ -176,6 +185,43 @@ def frozen_part(chk):
             return key + ':unfreeze-result-mutated', f'mutating the value returned by {how}(FrozenDict #{i}) changed the FrozenDict: now {fd}'
     return None
 
+  # ---- FrozenDicts handed out by scopes (flax_return_frozendict): they never change afterwards, whatever happens to the scope or to
+  # the caller's own dicts that were stored as variable values
+  def scope_probe():
+    from flax import configurations
+    from flax.core import apply as core_apply, bind as core_bind
+    import flax.linen as nn
+    with configurations.temp_flip_flag('return_frozendict', True):
+      mine = {'x': {'y': 1}}
+      _, out = core_apply(lambda scope: scope.put_variable('col', 'slot', mine), mutable=['col'])({})
+      snap = repr(unfreeze(out))
+      mine['x']['y'] = 9
+      mine['z'] = 1
+      if not isinstance(out, FrozenDict) or repr(unfreeze(out)) != snap:
+        yield 'apply', f'the FrozenDict returned by apply(mutable=...) changed when the caller mutated its own dict: {snap} -> {unfreeze(out)}'
+      sc = core_bind({'col': {'v': 1}}, mutable=['col'])
+      held = sc.mutable_variables()
+      snap = repr(unfreeze(held))
+      sc.put_variable('col', 'w', 2)
+      sc.push('child').put_variable('col', 'q', 3)
+      if not isinstance(held, FrozenDict) or repr(unfreeze(held)) != snap:
+        yield 'mutable_variables', f'the FrozenDict returned by Scope.mutable_variables() changed with later writes to the scope: {snap} -> {unfreeze(held)}'
+
+      class Keeps(nn.Module):
+        table: dict
+
+        @nn.compact
+        def __call__(self):
+          return self.variable('cache', 'table', lambda: self.table).value
+      table = {'k': {'n': 1}}
+      vs = Keeps(FrozenDict(table)).init(jax.random.key(0))
+      _, upd = Keeps(FrozenDict(table)).apply({}, mutable=['cache'])
+      for name, fd in (('init', vs), ('linen-apply', upd)):
+        if not isinstance(fd, FrozenDict):
+          yield name, f'{name} did not return a FrozenDict under flax_return_frozendict'
+  for where, msg in scope_probe():
+    chk.violation(f'C15:frozen:scope-result:{where}', msg, {})
+  chk.count('C15:frozen:scope-result')
   mc = tlc.require_ok(tlc.run('FrozenHeap', 'FrozenHeap_mc.cfg', workers=16, timeout=1800), 'FrozenHeap MC')
   chk.add_tlc(mc, 'FrozenHeap MC (4 actions)')
   small = tlc.require_ok(tlc.run('FrozenHeap', 'FrozenHeap_small.cfg', workers=1, timeout=1800), 'FrozenHeap small')
